@@ -93,6 +93,43 @@ let judge _id (c : cursor) (r : cursor) : bool * string =
                      oracle_fail "terminal_is_zero" site "the horizon-0 entry is not the zero vector: executing h steps earns the promise minus its discounted value") e.vals) v0
      | [] -> ());
     (hh >= 2 && nobs >= 2, alg)
+  | "csbb" ->
+    let m = read_pomdp c in
+    let s = int_of_nat m.pm.nS in let na = int_of_nat m.pm.nA in
+    let nw = next_int c in
+    let w = take_n nw (fun () -> { vals = take_n s (fun () -> next_q c); act = nat_of_int 0; obs = [] }) in
+    let bs = read_beliefs c s in
+    let site = "crossSumBestAtBelief" in
+    (match peek r with "THROW" | "CRASH" | "TIMEOUT" | "SANITIZER" -> oracle_fail "solver_returns" site "implementation did not return" | _ -> ());
+    let nbel = next_int r in
+    if nbel <> List.length bs then failwith "belief count mismatch";
+    let exact = List.mem (int_of_nat m.nO) [1; 2; 4; 8] in
+    let same a b = if exact then q_eq a b else closeq a b in
+    List.iter (fun b ->
+        for a = 0 to na - 1 do
+          let ia = next_int r in let iobs = next_nats r in
+          let ivals = next_list r (fun c -> q_of_float (float_of_string (next c))) in
+          let ival = q_of_float (float_of_string (next r)) in
+          let ie = { vals = ivals; act = nat_of_int ia; obs = iobs } in
+          (* O: the implementation's entry is a plan over w and its value is the look-ahead *)
+          if not (check_entry tol m w ie) then oracle_fail "point_backup_is_plan" site "entry is not the plan of its links";
+          let dotv = List.fold_left2 (fun acc x y -> q_add acc (q_mul x y)) q_zero ivals b in
+          if not (closeq dotv ival) then oracle_fail "point_backup_value" site "reported value is not the entry's value at the belief";
+          (* C: model *)
+          let (me, mv) = csbb_row b (proj_row m w (nat_of_int a)) (nat_of_int a) m.pm.nS in
+          if not (same mv ival) then disagree "csbb_row.value" site "model and implementation values differ";
+          if List.map int_of_nat me.obs <> List.map int_of_nat iobs then begin
+            (* a different link is acceptable only as a tie: same value promised *)
+            if exact then disagree "csbb_row.links" site "model and implementation pick different links"
+          end;
+          if not (List.for_all2 same me.vals ivals) && (exact || List.map int_of_nat me.obs = List.map int_of_nat iobs) then
+            disagree "csbb_row.values" site "model and implementation vectors differ"
+        done;
+        let ia = next_int r in let _iobs = next_nats r in let ival = q_of_float (float_of_string (next r)) in
+        let (me, mv) = csbb_all m w b in
+        if not (same mv ival) then disagree "csbb_all.value" site "best value differs";
+        if exact && int_of_nat me.act <> ia then disagree "csbb_all.action" site "best action differs") bs;
+    (nw >= 2 && int_of_nat m.nO >= 2, "csbb")
   | k -> failwith ("unknown case kind " ^ k)
 
 let () = main_loop judge
